@@ -1096,6 +1096,143 @@ def _coalesce_result_copies(fn: ast.FunctionDef) -> int:
     return done
 
 
+def _stored_names(stmts: list[ast.stmt]) -> set[str]:
+    return {n.id for b in stmts for n in ast.walk(b) if isinstance(n, ast.Name) and isinstance(n.ctx, (ast.Store, ast.Del))}
+
+
+def _loaded_names(e: ast.AST) -> set[str]:
+    return {n.id for n in ast.walk(e) if isinstance(n, ast.Name)}
+
+
+def _bodies(fn: ast.FunctionDef):
+    for node in ast.walk(fn):
+        for field in ("body", "orelse", "finalbody"):
+            body = getattr(node, field, None)
+            if isinstance(body, list) and body and isinstance(body[0], ast.stmt):
+                yield body
+
+
+def _fold_dict_stores(fn: ast.FunctionDef) -> int:
+    """`d = {...}` directly followed by `d["k"] = v` (v does not mention d) is `d = {..., "k": v}`."""
+    done = 0
+    for body in _bodies(fn):
+        pos = 0
+        while pos + 1 < len(body):
+            st, nx = body[pos], body[pos + 1]
+            if (isinstance(st, ast.Assign) and len(st.targets) == 1 and isinstance(st.targets[0], ast.Name) and isinstance(st.value, ast.Dict)
+                    and isinstance(nx, ast.Assign) and len(nx.targets) == 1 and isinstance(nx.targets[0], ast.Subscript)
+                    and isinstance(nx.targets[0].value, ast.Name) and nx.targets[0].value.id == st.targets[0].id
+                    and isinstance(nx.targets[0].slice, ast.Constant) and isinstance(nx.targets[0].slice.value, str)
+                    and st.targets[0].id not in _loaded_names(nx.value)):
+                key = nx.targets[0].slice.value
+                keep = [(k, v) for k, v in zip(st.value.keys, st.value.values) if not (isinstance(k, ast.Constant) and k.value == key)]
+                st.value.keys = [k for k, _ in keep] + [ast.Constant(key)]
+                st.value.values = [v for _, v in keep] + [nx.value]
+                del body[pos + 1]
+                done += 1
+                continue
+            pos += 1
+    return done
+
+
+def _splat_literal_dicts(fn: ast.FunctionDef) -> int:
+    """`kw = {"a": x, "b": y}; f(**kw, ...)` with kw bound once, used only as `**kw`, and nothing the literal reads
+    rebound in between: the call is `f(a=x, b=y, ...)`."""
+    done = 0
+    for body in _bodies(fn):
+        for pos, st in enumerate(list(body)):
+            if not (isinstance(st, ast.Assign) and len(st.targets) == 1 and isinstance(st.targets[0], ast.Name) and isinstance(st.value, ast.Dict)
+                    and st.value.keys and all(isinstance(k, ast.Constant) and isinstance(k.value, str) and k.value.isidentifier() for k in st.value.keys)):
+                continue
+            m = st.targets[0].id
+            occ = [n for n in ast.walk(fn) if isinstance(n, ast.Name) and n.id == m]
+            if sum(isinstance(n.ctx, ast.Store) for n in occ) != 1:
+                continue
+            uses = []
+            for idx in range(pos + 1, len(body)):
+                for c in ast.walk(body[idx]):
+                    if isinstance(c, ast.Call):
+                        for k in c.keywords:
+                            if k.arg is None and isinstance(k.value, ast.Name) and k.value.id == m:
+                                uses.append((idx, c, k))
+            if not uses or len(uses) + 1 != len(occ):
+                continue
+            last = max(i for i, _, _ in uses)
+            if _stored_names(body[pos + 1:last]) & _loaded_names(st.value):
+                continue
+            # a splat inside a loop / nested function would re-evaluate the values: only straight-line uses
+            if any(not any(c is n for n in ast.walk(body[i])) or isinstance(body[i], (ast.FunctionDef, ast.While)) for i, c, _ in uses):
+                continue
+            for _, c, k in uses:
+                at = c.keywords.index(k)
+                c.keywords[at:at + 1] = [ast.keyword(arg=kk.value, value=_copy(v)) for kk, v in zip(st.value.keys, st.value.values)]
+            body.remove(st)
+            done += 1
+    return done
+
+
+def _iterator_temporaries(fn: ast.FunctionDef) -> int:
+    """`plan = CALL; ...; for x in plan:` with plan bound once and read once, nothing CALL reads rebound in between:
+    the loop iterates over CALL."""
+    done = 0
+    for body in _bodies(fn):
+        for pos, st in enumerate(list(body)):
+            if not (isinstance(st, ast.Assign) and len(st.targets) == 1 and isinstance(st.targets[0], ast.Name) and isinstance(st.value, ast.Call)):
+                continue
+            m = st.targets[0].id
+            occ = [n for n in ast.walk(fn) if isinstance(n, ast.Name) and n.id == m]
+            if len(occ) != 2:
+                continue
+            at = body.index(st)
+            loop = next((b for b in body[at + 1:] if isinstance(b, ast.For) and isinstance(b.iter, ast.Name) and b.iter.id == m), None)
+            if loop is None:
+                continue
+            between = body[at + 1:body.index(loop)]
+            if _stored_names(between) & _loaded_names(st.value) or any(isinstance(n, (ast.Call, ast.Yield, ast.Await)) for b in between for n in ast.walk(b)):
+                continue
+            loop.iter = st.value
+            body.remove(st)
+            done += 1
+    return done
+
+
+def _conditional_callee(fn: ast.FunctionDef) -> int:
+    """`f = A if c else B; ...; f(args)` with f bound once and only ever called, c not rebound afterwards:
+    every statement calling f becomes `if c: <statement with A> else: <statement with B>`."""
+    done = 0
+    for body in _bodies(fn):
+        for st in list(body):
+            if not (isinstance(st, ast.Assign) and len(st.targets) == 1 and isinstance(st.targets[0], ast.Name) and isinstance(st.value, ast.IfExp)
+                    and _dotted(st.value.body) and _dotted(st.value.orelse)):
+                continue
+            f = st.targets[0].id
+            occ = [n for n in ast.walk(fn) if isinstance(n, ast.Name) and n.id == f]
+            calls = [c for c in ast.walk(fn) if isinstance(c, ast.Call) and isinstance(c.func, ast.Name) and c.func.id == f]
+            if len(calls) + 1 != len(occ) or not calls or any(c.lineno <= st.lineno for c in calls):
+                continue
+            tested = _loaded_names(st.value.test) | _loaded_names(st.value.body) | _loaded_names(st.value.orelse)
+            if any(isinstance(n, ast.Name) and n.id in tested and isinstance(n.ctx, (ast.Store, ast.Del)) and n.lineno > st.lineno for n in ast.walk(fn)):
+                continue
+            hosts = []
+            for b2 in _bodies(fn):
+                for h in b2:
+                    if isinstance(h, (ast.Assign, ast.AugAssign, ast.AnnAssign, ast.Expr, ast.Return)) and any(c is n for c in calls for n in ast.walk(h)):
+                        hosts.append((b2, h))
+            if sum(1 for _, h in hosts for n in ast.walk(h) if any(n is c for c in calls)) != len(calls):
+                continue
+            for b2, h in hosts:
+                def variant(which):
+                    v = _copy(h)
+                    for n in ast.walk(v):
+                        if isinstance(n, ast.Call) and isinstance(n.func, ast.Name) and n.func.id == f:
+                            n.func = _copy(which)
+                    return v
+                b2[b2.index(h)] = ast.copy_location(ast.If(test=_copy(st.value.test), body=[variant(st.value.body)], orelse=[variant(st.value.orelse)]), h)
+            body.remove(st)
+            done += 1
+    return done
+
+
 def apply(tree: ast.Module, module: str = "") -> list[str]:
     """Dissolve transparent helpers of `tree` into their callers (in place). -> names inlined (one per call site)."""
     if _has_walrus(tree):
@@ -1111,6 +1248,10 @@ def apply(tree: ast.Module, module: str = "") -> list[str]:
     for n in ast.walk(tree):
         if isinstance(n, ast.FunctionDef):
             aliases += _coalesce_result_copies(n)
+            aliases += _fold_dict_stores(n)
+            aliases += _splat_literal_dicts(n)
+            aliases += _iterator_temporaries(n)
+            aliases += _conditional_callee(n)
             aliases += _propagate_self_aliases(n)
             aliases += _sugar_divmod(n)
             aliases += _fold_loop_target_copies(n)
